@@ -167,6 +167,10 @@ fn test(c: &Case) -> TestResult {
                             Act::Compress => d.compress(&truth)?,
                             Act::ConsumeOutput(n) => d.consume_output(*n as usize)?,
                             Act::Advance | Act::ForceAdvance => advance_some(&mut d, &sm.order, &truth)?,
+                            Act::Reselect => {
+                                let cur = d.p.active_stream();
+                                let _ = d.p.set_stream(cur);
+                            },
                         }
                         vensure!(d.error.is_none(), "stream-unexpected-error", "{ctx} parse failed with {:?}", d.error);
                     }
